@@ -57,6 +57,16 @@ def run(ctx):
     need = {'Submit': 'max_job_id', 'JobOpen': 'max_job_id', 'WorkerConnected': 'max_worker_id', 'AllocationQueueCreated': 'max_queue_id', 'ServerStart': 'server_uid'}
     for ev, f in need.items():
         ctx.ob('R11.2', f'{ev}|{f}', f in rw.get(ev, set()), f'replay of {ev} updates {f}', prog.body(LEF).loc())
+    # ... on every path of the arm (an early `continue` / let-else in front of the mark update skips it for some records)
+    lef11 = prog.body(LEF)
+    from hqrules.templates import Effect as _Eff, effect_blocks as _eb, must_pass as _mp, loop_headers_containing as _lh
+    for ev, f in (('JobOpen', 'max_job_id'), ('WorkerConnected', 'max_worker_id'), ('AllocationQueueCreated', 'max_queue_id')):
+        ent, reg = lef11.arm_entries(EP, {ev})
+        wb = _eb(prog, lef11, _Eff('mark.' + f, writes={(SR, f)}))
+        wb = [x for x in wb if x in reg] or sorted(wb)
+        hs = _lh(lef11, ent[0]) if ent else []
+        ok, _w = _mp(lef11, ent, wb, exits=hs[:1] + list(lef11.returns())) if ent and wb else (False, None)
+        ctx.ob('R11.2', f'{ev}|{f}|on every path', ok, f'every path through the {ev} replay arm updates {f} (the id was issued whatever else the record says)', lef11.loc(ent[0]) if ent else lef11.loc())
     for ev in ('JobCompleted', 'AllocationQueueRemoved', 'WorkerLost'):
         bad = set(MARKS) & rw.get(ev, set())
         ctx.ob('R11.2', f'{ev}|no mark write', not bad, f'replay of {ev} (a removal) leaves the high-water marks alone', prog.body(LEF).loc())
